@@ -37,6 +37,7 @@
 #include <tbox/base/object_pool.hpp>
 #include <tbox/base/wrapped_recorder.h>
 #include <tbox/event/loop.h>
+#include <tbox/base/verif_hook.h>
 
 namespace tbox {
 namespace eventx {
@@ -118,6 +119,7 @@ bool ThreadPool::initialize(ssize_t min_thread_num, ssize_t max_thread_num)
         for (ssize_t i = 0; i < min_thread_num; ++i)
             if (!createWorker())
                 return false;
+        CPP_TBOX_VERIF_POINT("tp.init", min_thread_num, max_thread_num);
     }
 
     d_->all_threads_stop_flag = false;
@@ -172,7 +174,9 @@ ThreadPool::TaskToken ThreadPool::execute(NonReturnFunc &&backend_task, NonRetur
                     d_->undo_task_peak_num_ = d_->undo_tasks_cabinet.size();
             }
         }
+        CPP_TBOX_VERIF_POINT("tp.exec", token.id(), level);
     }
+    CPP_TBOX_VERIF_POINT("tp.exec.unlocked", token.id(), 0);
 
     LogDbg("create task %u", token.id());
     d_->cond_var.notify_one();
@@ -190,6 +194,7 @@ ThreadPool::TaskToken ThreadPool::execute(const NonReturnFunc &backend_task, con
 ThreadPool::TaskStatus ThreadPool::getTaskStatus(TaskToken task_token) const
 {
     std::lock_guard<std::mutex> lg(d_->lock);
+    CPP_TBOX_VERIF_POINT("tp.status", task_token.id(), 0);
 
     if (d_->undo_tasks_cabinet.at(task_token) != nullptr)
         return TaskStatus::kWaiting;
@@ -210,6 +215,7 @@ int ThreadPool::cancel(TaskToken token)
 {
     RECORD_SCOPE();
     std::lock_guard<std::mutex> lg(d_->lock);
+    CPP_TBOX_VERIF_POINT("tp.cancel", token.id(), 0);
 
     //! 如果正在执行
     if (d_->doing_tasks_token.find(token) != d_->doing_tasks_token.end())
@@ -258,16 +264,21 @@ void ThreadPool::cleanup()
             }
         );
         d_->threads_cabinet.clear();
+        CPP_TBOX_VERIF_POINT("tp.cleanup.collect", thread_vec.size(), 0);
     }
+    CPP_TBOX_VERIF_POINT("tp.cleanup.unlocked", 0, 0);
 
     d_->all_threads_stop_flag = true;
+    CPP_TBOX_VERIF_POINT("tp.cleanup.flag", 0, 0);
     d_->cond_var.notify_all();
+    CPP_TBOX_VERIF_POINT("tp.cleanup.notified", 0, 0);
 
     //! 等待所有的线程退出
     for (auto t : thread_vec) {
         t->join();
         delete t;
     }
+    CPP_TBOX_VERIF_POINT("tp.cleanup.joined", 0, 0);
 
     d_->is_ready = false;
 }
@@ -297,6 +308,7 @@ void ThreadPool::threadProc(ThreadToken thread_token)
         Task* item = nullptr;
         {
             std::unique_lock<std::mutex> lk(d_->lock);
+            CPP_TBOX_VERIF_POINT("tp.w.top", thread_token.id(), 0);
 
             /**
              * 如果当前空闲的线程数量大于等于未被领取的任务数，且当前的线程个数已超过长驻线程数，说明线程数据已满足现有要求则退出当前线程
@@ -304,13 +316,16 @@ void ThreadPool::threadProc(ThreadToken thread_token)
             if ((d_->idle_thread_num >= d_->undo_tasks_cabinet.size()) && (d_->threads_cabinet.size() > d_->min_thread_num)) {
                 LogDbg("thread %u will exit, no more work.", thread_token.id());
                 let_main_loop_join_me = true;
+                CPP_TBOX_VERIF_POINT("tp.w.exit_decide", thread_token.id(), 0);
                 break;
             }
 
             //! 等待任务
             ++d_->idle_thread_num;
+            CPP_TBOX_VERIF_POINT("tp.w.wait", thread_token.id(), 0);
             d_->cond_var.wait(lk, std::bind(&ThreadPool::shouldThreadExitWaiting, this));
             --d_->idle_thread_num;
+            CPP_TBOX_VERIF_POINT("tp.w.woken", thread_token.id(), d_->all_threads_stop_flag);
 
             /**
              * 有两种情况会从 cond_var.wait() 退出
@@ -325,7 +340,9 @@ void ThreadPool::threadProc(ThreadToken thread_token)
             }
 
             item = popOneTask();    //! 从任务队列中取出优先级最高的任务
+            CPP_TBOX_VERIF_POINT("tp.w.pop", thread_token.id(), (item != nullptr) ? item->token.id() : 0);
         }
+        CPP_TBOX_VERIF_POINT("tp.w.unlocked", thread_token.id(), 0);
 
         //! 后面就是去执行任务，不需要再加锁了
         if (item != nullptr) {
@@ -333,7 +350,9 @@ void ThreadPool::threadProc(ThreadToken thread_token)
             {
                 std::lock_guard<std::mutex> lg(d_->lock);
                 d_->doing_tasks_token.insert(item->token);
+                CPP_TBOX_VERIF_POINT("tp.w.mark", thread_token.id(), item->token.id());
             }
+            CPP_TBOX_VERIF_POINT("tp.w.body_begin", thread_token.id(), item->token.id());
 
             LogDbg("thread %u pick task %u", thread_token.id(), item->token.id());
 
@@ -346,6 +365,7 @@ void ThreadPool::threadProc(ThreadToken thread_token)
             }
 
             auto exec_time_cost = Clock::now() - exec_time_point;
+            CPP_TBOX_VERIF_POINT("tp.w.body_end", thread_token.id(), item->token.id());
 
             LogDbg("thread %u finish task %u, cost %" PRIu64 " + %" PRIu64 " us",
                    thread_token.id(), item->token.id(),
@@ -360,18 +380,22 @@ void ThreadPool::threadProc(ThreadToken thread_token)
             {
                 std::lock_guard<std::mutex> lg(d_->lock);
                 d_->doing_tasks_token.erase(item->token);
+                CPP_TBOX_VERIF_POINT("tp.w.erase", thread_token.id(), item->token.id());
                 d_->task_pool.free(item);
             }
+            CPP_TBOX_VERIF_POINT("tp.w.unlocked", thread_token.id(), 1);
         }
     }
 
     LogDbg("thread %u exit", thread_token.id());
+    CPP_TBOX_VERIF_POINT("tp.w.leaving", thread_token.id(), let_main_loop_join_me);
 
     if (let_main_loop_join_me) {
         //! 则将线程取出来，交给main_loop去join()，然后delete
         std::unique_lock<std::mutex> lk(d_->lock);
 
         auto t = d_->threads_cabinet.free(thread_token);
+        CPP_TBOX_VERIF_POINT("tp.w.exit_free", thread_token.id(), t != nullptr);
         TBOX_ASSERT(t != nullptr);
         d_->wp_loop->runInLoop(
             [t]{ t->join(); delete t; },
@@ -388,6 +412,7 @@ bool ThreadPool::createWorker()
     auto *new_thread = new std::thread(std::bind(&ThreadPool::threadProc, this, thread_token));
     if (new_thread != nullptr) {
         d_->threads_cabinet.update(thread_token, new_thread);
+        CPP_TBOX_VERIF_POINT("tp.spawn", thread_token.id(), d_->threads_cabinet.size());
         LogDbg("create thread %u", thread_token.id());
         return true;
 
@@ -399,6 +424,7 @@ bool ThreadPool::createWorker()
 
 bool ThreadPool::shouldThreadExitWaiting() const
 {
+    CPP_TBOX_VERIF_POINT("tp.w.pred", d_->all_threads_stop_flag, 0);
     if (d_->all_threads_stop_flag)
         return true;
 
@@ -409,6 +435,7 @@ bool ThreadPool::shouldThreadExitWaiting() const
         }
     }
 
+    CPP_TBOX_VERIF_POINT("tp.w.pred_false", 0, 0);
     return false;
 }
 
